@@ -10,6 +10,7 @@
 #include <xenium/parameter.hpp>
 
 #include <atomic>
+#include <cstring>
 #include <cassert>
 #include <cstdint>
 #include <memory>
@@ -131,9 +132,13 @@ struct seqlock {
   void update(Func func);
 
 private:
-  using storage_t = typename std::aligned_storage<sizeof(T), alignof(T)>::type;
   using sequence_t = uintptr_t;
   using copy_t = uintptr_t;
+  // The data is copied word-wise; the storage therefore covers a whole number of (suitably aligned) words,
+  // also when sizeof(T) is not a multiple of the word size or T has a smaller alignment.
+  static constexpr std::size_t copy_words = (sizeof(T) + sizeof(copy_t) - 1) / sizeof(copy_t);
+  using storage_t = typename std::aligned_storage<copy_words * sizeof(copy_t),
+                                                  (alignof(T) > alignof(copy_t) ? alignof(T) : alignof(copy_t))>::type;
 
   [[nodiscard]] bool is_write_pending(sequence_t seq) const { return (seq & 1) != 0; }
 
@@ -228,12 +233,12 @@ void seqlock<T, Policies...>::release_lock(sequence_t seq) {
 
 template <class T, class... Policies>
 void seqlock<T, Policies...>::read_data(T& dest, const storage_t& src) const {
-  auto* pdest = reinterpret_cast<copy_t*>(&dest);
-  auto* pend = pdest + (sizeof(T) / sizeof(copy_t));
+  copy_t buffer[copy_words];
   const auto* psrc = reinterpret_cast<const std::atomic<copy_t>*>(&src);
-  for (; pdest != pend; ++psrc, ++pdest) {
-    *pdest = psrc->load(std::memory_order_relaxed);
+  for (std::size_t i = 0; i < copy_words; ++i) {
+    buffer[i] = psrc[i].load(std::memory_order_relaxed);
   }
+  std::memcpy(static_cast<void*>(&dest), buffer, sizeof(T));
   // (6) - this acquire-fence synchronizes-with the release-fence (7)
   XENIUM_THREAD_FENCE(std::memory_order_acquire);
 
@@ -247,14 +252,15 @@ void seqlock<T, Policies...>::read_data(T& dest, const storage_t& src) const {
 
 template <class T, class... Policies>
 void seqlock<T, Policies...>::store_data(const T& src, storage_t& dest) {
+  copy_t buffer[copy_words] = {};
+  std::memcpy(buffer, static_cast<const void*>(&src), sizeof(T));
+
   // (7) - this release-fence synchronizes-with the acquire-fence (6)
   XENIUM_THREAD_FENCE(std::memory_order_release);
 
-  const auto* psrc = reinterpret_cast<const copy_t*>(&src);
-  const auto* pend = psrc + (sizeof(T) / sizeof(copy_t));
   auto* pdest = reinterpret_cast<std::atomic<copy_t>*>(&dest);
-  for (; psrc != pend; ++psrc, ++pdest) {
-    pdest->store(*psrc, std::memory_order_relaxed);
+  for (std::size_t i = 0; i < copy_words; ++i) {
+    pdest[i].store(buffer[i], std::memory_order_relaxed);
   }
 }
 
